@@ -53,24 +53,113 @@ theorem evalPar_eq {S O : Type} (f : S → O) (pop : List (Ind S O)) (sched : Li
   · have hn : pop[j]? = none := List.getElem?_eq_none (by omega)
     simp [hn]
 
-theorem runPar_eq (f : Nat → Nat) (stream : Nat → Nat) (ops : List Op) :
-    ∀ (schs : List (List Nat)) (s : RunSt), Legal f stream ops schs s → runPar f stream ops schs s = runSeq f stream ops s := by
+theorem range_filterMap_getElem? {α β : Type} (g : α → β) (l : List α) :
+    (List.range l.length).filterMap (fun i => l[i]?.map g) = l.map g := by
+  induction l with
+  | nil => rfl
+  | cons x xs ih =>
+    rw [List.length_cons, List.range_succ_eq_map, List.filterMap_cons]
+    simp only [List.getElem?_cons_zero, Option.map_some, List.filterMap_map, List.map_cons]
+    congr 1
+
+theorem callsPar_perm {S O : Type} (pop : List (Ind S O)) (sched : List Nat)
+    (h : sched.Perm (List.range pop.length)) : (callsPar pop sched).Perm (pop.map (·.sol)) := by
+  unfold callsPar
+  have := h.filterMap (fun i => pop[i]?.map (·.sol))
+  rwa [range_filterMap_getElem?] at this
+
+theorem cur_eq {a b : RunSt} (h : a.stack = b.stack) : cur a = cur b := by simp [cur, h]
+
+theorem stepOther_rel (stream : Nat → Nat) (op : Op) (a b : RunSt) (h : SameUpToCallOrder a b) :
+    SameUpToCallOrder (stepOther stream op a) (stepOther stream op b) := by
+  obtain ⟨h1, h2, h3, h4, h5, h6⟩ := h
+  have hc := cur_eq h1
+  cases op with
+  | eval => exact ⟨h1, h2, h3, h4, h5, h6⟩
+  | perturb => exact ⟨by simp [stepOther, setCur, hc, h1, h2], by simp [stepOther, setCur, h2], h3, h4, h5, h6⟩
+  | spawn => exact ⟨by simp [stepOther, setCur, hc, h1, h2], by simp [stepOther, setCur, h2], h3, h4, h5, h6⟩
+  | select => exact ⟨by simp [stepOther, hc, h1, h2], by simp [stepOther, h2], h3, h4, h5, h6⟩
+  | merge =>
+    simp only [stepOther, ← h1]
+    split
+    · exact ⟨rfl, h2, h3, h4, h5, h6⟩
+    · exact ⟨h1, h2, h3, h4, h5, h6⟩
+  | best => exact ⟨h1, h2, h3, by simp [stepOther, hc, h4], h5, h6⟩
+  | log => exact ⟨h1, h2, h3, h4, by simp [stepOther, hc, h3, h4, h5], h6⟩
+
+theorem evalStep_rel (f : Nat → Nat) (sch : List Nat) (a b : RunSt) (h : SameUpToCallOrder a b)
+    (hs : sch.Perm (List.range (cur b).length)) :
+    SameUpToCallOrder (evalStepPar f sch a) (evalStepSeq f b) := by
+  obtain ⟨h1, h2, h3, h4, h5, h6⟩ := h
+  have hc := cur_eq h1
+  refine ⟨?_, h2, ?_, h4, h5, ?_⟩
+  · simp only [evalStepPar, evalStepSeq, setCur, hc, h1]
+    rw [evalPar_eq f (cur b) sch hs]
+  · simp [evalStepPar, evalStepSeq, setCur, hc, h3]
+  · simp only [evalStepPar, evalStepSeq, setCur, hc]
+    exact h6.append (callsPar_perm (cur b) sch hs)
+
+theorem evalStepSeq_rel (f : Nat → Nat) (a b : RunSt) (h : SameUpToCallOrder a b) :
+    SameUpToCallOrder (evalStepSeq f a) (evalStepSeq f b) := by
+  obtain ⟨h1, h2, h3, h4, h5, h6⟩ := h
+  have hc := cur_eq h1
+  exact ⟨by simp [evalStepSeq, setCur, hc, h1], h2, by simp [evalStepSeq, setCur, hc, h3], h4, h5,
+    by simp only [evalStepSeq, setCur, hc]; exact h6.append_right _⟩
+
+theorem runPar_rel (f : Nat → Nat) (stream : Nat → Nat) (ops : List Op) :
+    ∀ (schs : List (List Nat)) (a b : RunSt), SameUpToCallOrder a b → Legal f stream ops schs b →
+      SameUpToCallOrder (runPar f stream ops schs a) (runSeq f stream ops b) := by
   induction ops with
-  | nil => intro schs s _; cases schs <;> rfl
+  | nil => intro schs a b h _; cases schs <;> exact h
   | cons op ops ih =>
-    intro schs s hl
+    intro schs a b h hl
     cases op with
     | eval =>
       cases schs with
-      | nil => simp only [runPar, runSeq]; exact ih _ _ (by simpa [Legal] using hl)
+      | nil => simp [Legal] at hl
       | cons sch schs =>
         simp only [Legal] at hl
         simp only [runPar, runSeq]
-        rw [evalPar_eq f s.pop sch hl.1]
-        exact ih _ _ hl.2
-    | perturb => simp only [runPar, runSeq]; exact ih _ _ (by simpa [Legal] using hl)
-    | spawn => simp only [runPar, runSeq]; exact ih _ _ (by simpa [Legal] using hl)
-    | best => simp only [runPar, runSeq]; exact ih _ _ (by simpa [Legal] using hl)
+        exact ih _ _ _ (evalStep_rel f sch a b h hl.1) hl.2
+    | perturb => simp only [runPar, runSeq]; exact ih _ _ _ (stepOther_rel stream _ a b h) (by simpa [Legal] using hl)
+    | spawn => simp only [runPar, runSeq]; exact ih _ _ _ (stepOther_rel stream _ a b h) (by simpa [Legal] using hl)
+    | select => simp only [runPar, runSeq]; exact ih _ _ _ (stepOther_rel stream _ a b h) (by simpa [Legal] using hl)
+    | merge => simp only [runPar, runSeq]; exact ih _ _ _ (stepOther_rel stream _ a b h) (by simpa [Legal] using hl)
+    | best => simp only [runPar, runSeq]; exact ih _ _ _ (stepOther_rel stream _ a b h) (by simpa [Legal] using hl)
+    | log => simp only [runPar, runSeq]; exact ih _ _ _ (stepOther_rel stream _ a b h) (by simpa [Legal] using hl)
+
+/-! ### experiment runner -/
+
+theorem mem_jobs (runs nprob r p : Nat) : (r, p) ∈ jobs runs nprob ↔ r < runs ∧ p < nprob := by
+  simp [jobs, List.mem_flatMap, List.mem_map, List.mem_range]
+
+theorem experiment_file {R : Type} (single : Nat → Nat → R) (runs nprob : Nat) (sched : List Nat)
+    (hs : sched.Perm (List.range (jobs runs nprob).length)) (p r : Nat) (hr : r < runs) (hp : p < nprob) :
+    fileOf (experiment single runs nprob sched) p r = some (single p r) := by
+  unfold fileOf
+  have hmem : (r, p) ∈ jobs runs nprob := (mem_jobs runs nprob r p).2 ⟨hr, hp⟩
+  obtain ⟨j, hj, hjj⟩ := List.getElem_of_mem hmem
+  have hjs : j ∈ sched := hs.mem_iff.2 (List.mem_range.2 hj)
+  have hin : ((p, r), single p r) ∈ experiment single runs nprob sched := by
+    simp only [experiment, List.mem_filterMap]
+    exact ⟨j, hjs, by simp [List.getElem?_eq_getElem hj, hjj, jobSeed]⟩
+  cases hf : (experiment single runs nprob sched).find? (fun x => decide (x.1 = (p, r))) with
+  | none =>
+    rw [List.find?_eq_none] at hf
+    exact absurd (hf _ hin) (by simp)
+  | some x =>
+    have hx := List.find?_some hf
+    have hxm := List.mem_of_find?_eq_some hf
+    simp only [decide_eq_true_eq] at hx
+    simp only [experiment, List.mem_filterMap] at hxm
+    obtain ⟨j', _, hj'⟩ := hxm
+    cases hjob : (jobs runs nprob)[j']? with
+    | none => simp [hjob] at hj'
+    | some job =>
+      simp only [hjob, Option.map_some, Option.some.injEq] at hj'
+      subst hj'
+      simp only [Prod.mk.injEq] at hx
+      simp [jobSeed, hx.1, hx.2]
 
 theorem childSeeds_eq (k : Nat) (r : Rng) : childSeeds k r = (List.range k).map (fun i => r.stream (r.pos + i)) := by
   induction k generalizing r with
